@@ -7,7 +7,9 @@ import (
 	"fmt"
 	"os"
 	"path/filepath"
+	"runtime/debug"
 	"sort"
+	"strconv"
 	"strings"
 	"testing"
 	"time"
@@ -525,6 +527,13 @@ func histLess(a, b []int) bool {
 }
 
 func runC15(t *testing.T, rep *mc.Reporter) {
+	// every execution allocates a few MB of connection buffers while the live heap is a
+	// few MB of static tables: with the default GOGC the collector runs once per execution
+	gcp := 400
+	if v, err := strconv.Atoi(os.Getenv("VERIF_GOGC")); err == nil && v > 0 {
+		gcp = v
+	}
+	debug.SetGCPercent(gcp)
 	shard, nshards := mc.ShardOf()
 	tier := mc.Tier()
 	budget := &mc.Budget{Deadline: mc.DeadlineFromEnv()}
